@@ -41,6 +41,8 @@ func cmdGen(args []string) {
 			b = g.behC07()
 		case "C08":
 			b = g.behC08()
+		case "C17":
+			b = g.behC17()
 		default:
 			if fn, ok := genFns[*prop]; ok {
 				b = fn(g)
@@ -425,4 +427,72 @@ func (g *gen) behC08() M {
 	cfg := baseCfg()
 	cfg["limit"] = 1 << 20
 	return M{"cfg": cfg, "steps": steps}
+}
+
+func (g *gen) errText() string {
+	const alpha = "abcdefghijklmnopqrstuvwxyzABCDEFGHIJKLMNOPQRSTUVWXYZ0123456789 _-.,;:!?()[]{}<>=+*/%&|^~#@$'\"\\\n\téü日本"
+	r := []rune(alpha)
+	n := 1 + g.rng.Intn(30)
+	out := make([]rune, n)
+	for i := range out {
+		out[i] = r[g.rng.Intn(len(r))]
+	}
+	return string(out)
+}
+
+// richErr: random decorator stacks up to depth 10 (repetitions included).
+func (g *gen) richErr() M {
+	n := g.rng.Intn(11)
+	layers := []any{}
+	codes := []string{"22012", "23505", "42601", "XX000", "XX001", "P0001", "00000", "57014", "XXUUU"}
+	sevs := []string{"ERROR", "FATAL", "PANIC", "WARNING", "NOTICE", "DEBUG", "INFO", "LOG"}
+	for i := 0; i < n; i++ {
+		switch g.rng.Intn(7) {
+		case 0:
+			layers = append(layers, M{"d": "code", "v": codes[g.rng.Intn(len(codes))]})
+		case 1:
+			layers = append(layers, M{"d": "sev", "v": sevs[g.rng.Intn(len(sevs))]})
+		case 2:
+			layers = append(layers, M{"d": "hint", "v": g.errText()})
+		case 3:
+			layers = append(layers, M{"d": "detail", "v": g.errText()})
+		case 4:
+			layers = append(layers, M{"d": "cons", "v": g.errText()})
+		case 5:
+			layers = append(layers, M{"d": "wrap", "v": g.errText()})
+		case 6:
+			line := []int{0, 1, 42, 65535, 2147483647, -1, 48, 12345}[g.rng.Intn(8)]
+			layers = append(layers, M{"d": "src", "file": g.errText(), "line": fmt.Sprint(line), "fn": g.errText()})
+		}
+	}
+	return M{"base": g.errText(), "layers": layers}
+}
+
+func (g *gen) behC17() M {
+	steps := []any{startup("u")}
+	n := 1 + g.rng.Intn(6)
+	for i := 0; i < n; i++ {
+		g.id++
+		id := g.id
+		switch g.rng.Intn(5) {
+		case 0:
+			steps = append(steps, send(M{"t": "Q", "q": M{"id": id, "parse": "err", "perr": g.richErr(), "stmts": []any{}}}))
+		case 1:
+			if g.chance(0.5) {
+				steps = append(steps, M{"k": "errorcode", "err": nil})
+			} else {
+				steps = append(steps, M{"k": "errorcode", "err": g.richErr()})
+			}
+		case 2:
+			// extended protocol: failing statement function
+			st := M{"id": id, "cols": []any{}, "oids": []any{}, "prog": []any{M{"op": "ret", "r": "err", "err": g.richErr()}}}
+			steps = append(steps, send(M{"t": "P", "name": "", "q": M{"id": id, "parse": "ok", "stmts": []any{st}}, "noids": 0}),
+				send(M{"t": "B", "portal": "", "stmt": "", "pfmt": []any{}, "params": []any{}, "rfmt": []any{}}),
+				send(M{"t": "E", "portal": "", "max": 0}), send(M{"t": "S"}))
+		default:
+			st := M{"id": id, "cols": g.cols(1), "oids": []any{}, "prog": []any{g.row("ok", 1), M{"op": "ret", "r": "err", "err": g.richErr()}}}
+			steps = append(steps, send(M{"t": "Q", "q": M{"id": id, "parse": "ok", "stmts": []any{st}}}))
+		}
+	}
+	return M{"cfg": baseCfg(), "steps": steps}
 }
